@@ -58,18 +58,33 @@ Theorem command_keeps_table_wellformed : forall nc s c s' inside ex,
 Proof. exact command_keeps_wf_lemma. Qed.
 
 (* every kind of command, however it ends: the shell's table afterwards is the
-   table before, except after a successful exec *)
+   table before, except after an exec whose redirections succeeded *)
 Theorem command_restores_table : forall nc s c s' inside ex,
   sorted (k_tab s) -> below_limit (k_lim s) (k_tab s) ->
   run_cmd nc s c = (s', inside, ex) ->
-  c_kind c <> KExec \/ ex = true ->
+  exec_like (c_kind c) = false \/ snd (perform_redirs nc s (c_redirs c) []) = false ->
   k_tab s' = k_tab s /\ k_lim s' = k_lim s.
 Proof. exact command_restores_lemma. Qed.
 
+(* exec, with or without an operand (an operand that cannot be invoked: the
+   shell goes on if it is interactive and exits otherwise): redirections that
+   succeeded are kept, exactly the same table in both cases *)
+Theorem exec_keeps_successful_redirections : forall nc s c s' inside ex s1 stack,
+  exec_like (c_kind c) = true ->
+  perform_redirs nc s (c_redirs c) [] = (s1, stack, true) ->
+  run_cmd nc s c = (s', inside, ex) ->
+  k_tab s' = k_tab (preserve_redirs s1 stack) /\ k_lim s' = k_lim s1
+  /\ ex = match c_kind c with KExecFail false => true | _ => false end.
+Proof. exact run_cmd_exec. Qed.
+
 (* ... and so does every compound command or function with redirections whose
-   body is a list of further (redirected, nested) commands, if nothing in it is
-   meant to persist (no exec, no change of the limit): whether the body runs to
-   its end, a redirection is refused, or the shell exits from inside it. *)
+   body is a list of further (redirected, nested) commands, every script read
+   with `.` or `command .` (with redirections; the shell opens a descriptor of
+   its own for it) and every command with a command substitution (a pipe), if
+   and every pipeline, if nothing in it is meant to persist (no exec, no change
+   of the limit): whether the body runs to its end, a redirection is refused,
+   the script cannot be opened or moved to 10 or above, a pipe cannot be made,
+   or the shell exits from inside it. *)
 Theorem script_item_restores_table : forall i sh steps sh' ex,
   sorted (k_tab (sh_k sh)) -> below_limit (k_lim (sh_k sh)) (k_tab (sh_k sh)) ->
   transient i = true -> run_item sh i = (steps, sh', ex) ->
@@ -148,6 +163,58 @@ Theorem undo_never_panics : forall nc s rs s' stack ok,
   perform_redirs nc s rs [] = (s', stack, ok) -> undo_panics stack = false.
 Proof. exact undo_never_panics_lemma. Qed.
 
+(* -- descriptors the shell opens for its own use ---------------------------------------------- *)
+
+(* move_fd_internal: whether or not the copy at 10 or above can be made, the
+   low descriptor it was opened at does not stay behind *)
+Theorem move_fd_internal_leaves_nothing_behind : forall s from e s' res,
+  sorted (k_tab s) -> below_limit (k_lim s) (k_tab s) ->
+  lookup (k_tab s) from = Some e -> move_fd_internal s from = (s', res) ->
+  k_lim s' = k_lim s /\
+  match res with
+  | Ok fd =>
+      if N.leb 10 from then fd = from /\ k_tab s' = k_tab s
+      else (10 <= fd)%N /\ lookup (k_tab s) fd = None
+           /\ k_tab s' = tdel (tset (k_tab s) fd (mkEnt (e_ofd e) true)) from
+  | Err _ => (from < 10)%N /\ k_tab s' = tdel (k_tab s) from
+  end.
+Proof. exact move_fd_internal_lemma. Qed.
+
+(* opening a script (`.`, start-up): exactly one new descriptor, close-on-exec,
+   at 10 or above - or, on any failure, no change at all *)
+Theorem open_internal_all_or_nothing : forall s p s' r,
+  sorted (k_tab s) -> below_limit (k_lim s) (k_tab s) ->
+  open_internal s p = (s', r) ->
+  k_lim s' = k_lim s /\
+  match r with
+  | None => k_tab s' = k_tab s
+  | Some fd => (10 <= fd)%N /\ lookup (k_tab s) fd = None
+               /\ exists id, k_tab s' = tset (k_tab s) fd (mkEnt id true)
+  end.
+Proof. exact open_internal_lemma. Qed.
+
+(* pipe(2): two new descriptors or none *)
+Theorem pipe_all_or_nothing : forall s s' res,
+  sorted (k_tab s) -> below_limit (k_lim s) (k_tab s) ->
+  k_pipe s = (s', res) ->
+  k_lim s' = k_lim s /\
+  match res with
+  | Ok (r, w) =>
+      r <> w /\ lookup (k_tab s) r = None /\ lookup (k_tab s) w = None
+      /\ exists e1 e2, k_tab s' = tset (tset (k_tab s) r e1) w e2
+  | Err _ => k_tab s' = k_tab s
+  end.
+Proof. exact pipe_lemma. Qed.
+
+(* a pipeline leaves the parent's table as it was, whether or not every pipe
+   can be made (when one cannot, the read end of the previous pipe is closed
+   too) *)
+Theorem pipeline_restores_table : forall s n s' children ok,
+  sorted (k_tab s) -> below_limit (k_lim s) (k_tab s) ->
+  run_pipeline s n = (s', children, ok) ->
+  k_tab s' = k_tab s /\ k_lim s' = k_lim s.
+Proof. exact pipeline_restores_lemma. Qed.
+
 (* -- exec: persistence ------------------------------------------------------------------------ *)
 
 Theorem preserve_keeps_only_targets : forall nc s rs s' stack ok fd,
@@ -167,7 +234,7 @@ Proof. exact preserve_view_lemma. Qed.
 Theorem oracle_restored_sound : forall nc s c s' inside ex,
   sorted (k_tab s) -> below_limit (k_lim s) (k_tab s) ->
   run_cmd nc s c = (s', inside, ex) ->
-  c_kind c <> KExec \/ ex = true ->
+  exec_like (c_kind c) = false \/ snd (perform_redirs nc s (c_redirs c) []) = false ->
   restored (k_tab s) (k_tab s') = true.
 Proof. exact ProofsSpec.oracle_restored_sound. Qed.
 
@@ -177,9 +244,11 @@ Theorem oracle_internal_sound : forall nc s c s' si ex,
   internal_ok (targets (c_redirs c)) (k_tab s) (k_tab si) = true.
 Proof. exact ProofsSpec.oracle_internal_sound. Qed.
 
-Theorem oracle_persisted_sound : forall nc s c s' inside,
+Theorem oracle_persisted_sound : forall nc s c s' inside ex s1 stack,
   sorted (k_tab s) -> below_limit (k_lim s) (k_tab s) ->
-  c_kind c = KExec -> run_cmd nc s c = (s', inside, false) ->
+  exec_like (c_kind c) = true ->
+  perform_redirs nc s (c_redirs c) [] = (s1, stack, true) ->
+  run_cmd nc s c = (s', inside, ex) ->
   persisted_ok (targets (c_redirs c)) (k_tab s) (k_tab s') = true.
 Proof. exact ProofsSpec.oracle_persisted_sound. Qed.
 
@@ -192,6 +261,7 @@ Print Assumptions failed_redir_changes_nothing.
 Print Assumptions redirs_keep_table_wellformed.
 Print Assumptions command_keeps_table_wellformed.
 Print Assumptions command_restores_table.
+Print Assumptions exec_keeps_successful_redirections.
 Print Assumptions script_item_restores_table.
 Print Assumptions undo_restores_needs_limit_refuted.
 Print Assumptions redirs_applied_in_order.
@@ -201,6 +271,10 @@ Print Assumptions internal_fds_ge_10_cloexec.
 Print Assumptions saved_fds_intact.
 Print Assumptions saved_fd_never_target.
 Print Assumptions undo_never_panics.
+Print Assumptions move_fd_internal_leaves_nothing_behind.
+Print Assumptions open_internal_all_or_nothing.
+Print Assumptions pipe_all_or_nothing.
+Print Assumptions pipeline_restores_table.
 Print Assumptions preserve_keeps_only_targets.
 Print Assumptions preserve_keeps_view.
 Print Assumptions oracle_restored_sound.
